@@ -82,8 +82,20 @@ def check(repo, names, workdir):
         os.makedirs(workdir, exist_ok=True)
         allres = {}
         transient = []
-        # one file per function: the generated definition followed by its tie lemma
-        pending = {n: list(levels) for n, levels in ties.items()}
+        # one file per function: the generated definition followed by its tie lemma; the verdict on one function is cached
+        # under the text that was compiled, so that a change to the source recompiles only the functions it touches
+        fdir = os.path.join(cdir, 'fn')
+        os.makedirs(fdir, exist_ok=True)
+
+        def fkey(n):
+            return hashlib.sha1((build.HEADERS.get(n, build.HEADER) + defs[n] + json.dumps(ties[n]) + stamp).encode()).hexdigest()[:24]
+        pending = {}
+        for n, levels in ties.items():
+            fp = os.path.join(fdir, fkey(n))
+            if os.path.exists(fp):
+                allres[n] = open(fp).read()
+            else:
+                pending[n] = list(levels)
         while pending:
             procs = []
             items = list(pending.items())
@@ -134,6 +146,8 @@ def check(repo, names, workdir):
                     nxt[n] = pending[n][1:]
                 else:
                     allres[n] = 'differs from the Model'
+                if n in allres:
+                    open(os.path.join(fdir, fkey(n)), 'w').write(allres[n])
             pending = nxt
         for n, why in fails.items():
             allres[n] = 'not translated: %s' % why[:160]
